@@ -301,8 +301,13 @@ func exportDef(name, variant string) *c17Def {
 	d.Default = p.DefaultDesiredPrivilegeLevel
 
 	// variant merge: every section equals the variant's where the variant defines it, else the default's
-	if variant != "" && raw.Default != nil && raw.Variants[variant] != nil {
+	if raw.Default != nil && (variant == "" || raw.Variants[variant] != nil) {
 		rv, rd := raw.Variants[variant], raw.Default
+		if variant == "" {
+			// the default itself: every section is the file's default section (an empty variant defines nothing)
+			rv = &rawPlatform{}
+		}
+
 		pick := func(defined bool, v, dflt interface{}) interface{} {
 			if defined {
 				return v
@@ -447,7 +452,7 @@ func nn(s []string) []string {
 func levelNames(m map[string]*network.PrivilegeLevel) []string {
 	var out []string
 	for _, l := range m {
-		out = append(out, fmt.Sprintf("%s|%s|%s|%s|%s", l.Name, l.Pattern, l.PreviousPriv, l.Escalate, l.Deescalate))
+		out = append(out, fmt.Sprintf("%s|%s|%s|%s|%s|%s|%v|%s", l.Name, l.Pattern, l.PreviousPriv, l.Escalate, l.Deescalate, strings.Join(l.NotContains, ","), l.EscalateAuth, l.EscalatePrompt))
 	}
 
 	sort.Strings(out)
@@ -678,6 +683,26 @@ func c17Run(s *c17Scn) verdict {
 		for _, vn := range d.Variants {
 			_, _ = platform.NewPlatformVariant(s.Name, vn, "sim", opts...)
 		}
+	}
+
+	// another history: an earlier platform of the same name whose driver was customised in place (patterns edited, privileges
+	// updated) - what is loaded afterwards is the file's definition again
+	if pc, cerr := platform.NewPlatform(s.Name, "sim", opts...); cerr == nil {
+		if ndc, nerr := pc.GetNetworkDriver(); nerr == nil {
+			for _, l := range ndc.PrivilegeLevels {
+				l.Pattern = `customised-by-an-earlier-user#`
+				l.NotContains = append(l.NotContains, "customised")
+			}
+
+			ndc.FailedWhenContains = append(ndc.FailedWhenContains, "customised")
+			ndc.UpdatePrivileges()
+		}
+	}
+
+	if d2 := exportDef(s.Name, s.Variant); d2.Loads && !d2.MergeOK {
+		fail(&v, "C17:"+id+":changed-by-earlier-loads", "after earlier loads of the same name in this process (variants, a customised driver) the definition is no longer the file's: %s", d2.MergeDiff)
+
+		return v
 	}
 
 	if s.Variant == "" {
